@@ -72,7 +72,7 @@ if __name__ == "__main__":
         for (kind, name, st, detail, rep) in pool.imap_unordered(job, items):
             flag = "ok  "
             if st != "ok":
-                if kind == "twins" and name in known and st == "false-alarm":
+                if kind in ("twins", "benign") and name in known and st == "false-alarm":
                     flag = "known"
                 else:
                     flag = "FAIL"
